@@ -137,6 +137,11 @@ def build_ops(sig, rng):
         p1, p2 = sig[:c], sig[c:]
         lst = [p1, p2]
         add("concatenate", "list", lambda: pb.concatenate(lst))
+        # pieces annotated differently (each block carries its own notes): the inputs keep their own meta, whatever the result gets
+        pa = type(p1).like(p1, meta={"block": 0, "notes": {"a": 1}})
+        pb_ = type(p2).like(p2, meta={"block": 1, "flags": [1, 2], "notes": {"b": 2}})
+        lst2 = [pa, pb_]
+        add("concatenate_metas", "list", lambda: pb.concatenate(lst2))
         add("concatenate_bad", "invalid", lambda: pb.concatenate([p2, p1]))
     if n >= 1:
         k = int(rng.integers(0, n + 1))
